@@ -24,6 +24,11 @@ func MarshalString(g orb.Geometry) string {
 }
 
 func wkt(buf *bytes.Buffer, geom orb.Geometry) {
+	if geom == nil {
+		// nothing to write for a nil geometry, same as the wkb encoders.
+		return
+	}
+
 	switch g := geom.(type) {
 	case orb.Point:
 		fmt.Fprintf(buf, "POINT(%g %g)", g[0], g[1])
